@@ -17,6 +17,14 @@ NA = {
  "C19": "serde round trip of a value: no I/O fault or schedule changes whether two values share an encoding",
 }
 CHECKS = {
+ "C15": dict(level="fault_enumeration", design="§5.6",
+   text="Refinement against the reference model 'textual inclusion, then the same analyzer': generated programs are cut at line boundaries into include trees (depth, sub-directories, several includes, missing file, self-include, two-cycle, file included twice) and linted through the in-memory FileReader under three reader personalities and a reader fault plan (five error kinds x import index), and through the real CLI reader under file-system faults (failing n-th open, short reads, EINTR); the diagnostics must equal those of the pasted single file mapped back through the line map, every failed include must yield exactly one error on its directive, everything else must still be analysed, and the run must end within the import budget. Fault enumeration over kind x instant for the reader faults, exploration for the program/cut space.",
+   note="Trusted: the cutter's line map (paste(cut(p)) = p by construction), the harness's model of which include fails (validated against the reader's import log on every run; a mismatch is counted, never reported). Worlds whose included file ends in an unterminated statement are excluded from the equality clause (line accounting, C07).",
+   technique="deterministic simulation: reader/file-system fault injection with refinement against a paste model"),
+ "C18": dict(level="exploration", design="§5.7",
+   text="All 16 combinations of --json/--compact/--no-color/--all-files of the real rva process run on each generated world under one shared entropy seed (so channel differences cannot be schedule differences), plus the library call RVParser::run in process; parsers for the three formats recover the items and compare them (severity, title, file, line, columns), check the other-files counter, JSON shape, ordering within a file, severity-per-kind, colour stripping, and for every pretty item that the excerpt is the referenced line and the caret run sits under the reported columns.",
+   note="Trusted: the harness's parsers of the compact and pretty formats (a line they cannot parse is itself reported as malformed output); path normalisation ('d/../x.s' = 'x.s').",
+   technique="deterministic simulation: same-schedule cross-channel comparison of real process runs"),
  "C10": dict(level="exploration", design="§5.3",
    text="Seeded search over hash/UUID schedules: each generated world (program cut into an include tree) is linted under K entropy seeds in process (library entry point and the CLI's pipeline) and, for a share of runs, by the real rva process in json/compact/pretty modes with and without --all-files under several VERIF_ENTROPY_SEED values; the diagnostic sequences must be identical and free of duplicates. Exploration is the right level: the schedule space is the product of SipHash keys and UUID draws and can only be sampled; reach is measured by order signatures.",
    note="Trusted: the entropy seam (self-tested each invocation), the normalisation of diagnostics (UUIDs replaced by file names). A clean batch is evidence, not proof.",
